@@ -40,6 +40,7 @@ type vRepl struct {
 	curs     map[int]*vReplCur
 	ops, obs []string
 	panicked bool
+	staleAdd bool // an AddPoll was applied to a cursor whose item was in the free list (root cause tag for the monitor)
 }
 
 func vReplBuf(id, ord int) []byte {
@@ -124,6 +125,10 @@ func vReplShow(c *ReplicationBufferQueueCursor) string {
 func (v *vRepl) line() string { return v.head + strings.Join(v.ops, ";") }
 
 func (v *vRepl) mon(sig, what string) {
+	if v.staleAdd && strings.HasPrefix(sig, "C09:") {
+		sig += ":stale-addpoll"
+		what += " [earlier in this case AddPoll was applied to a cursor whose item had been recycled into the free list]"
+	}
 	v.out.monitor(sig, what, map[string]string{"ops": v.line(), "impl": strings.Join(v.obs, ";")})
 }
 
@@ -204,6 +209,13 @@ func (v *vRepl) exec(op string) {
 			v.curs[arg(1)] = &vReplCur{c: NewReplicationBufferQueueCursor(make([]byte, 64)), pos: -1}
 			res = "ok"
 		case "add":
+			if cu.c.currentItem != nil {
+				for it, k := v.q.freeTailItem, 0; it != nil && k < len(v.sids)+10; it, k = it.nextItem, k+1 {
+					if it == cu.c.currentItem {
+						v.staleAdd = true
+					}
+				}
+			}
 			v.q.AddPoll(cu.c)
 			cu.added = true
 			res = "ok"
